@@ -9,10 +9,72 @@ package align
 
 //@ pure func nrows(sb *seqbag) int = len(sb.seqs)
 //@ pure func row(sb *seqbag, r int) *seq = sb.seqs[r]
+//@ pure func rowname(sb *seqbag, r int) string = sb.seqs[r].name
 //@ pure func rowlen(sb *seqbag, r int) int = len(sb.seqs[r].sequence)
 //@ pure func cell(sb *seqbag, r int, c int) int = sb.seqs[r].sequence[c]
 //@ pure func rowsok(sb *seqbag) bool = forall r :: 0 <= r && r < len(sb.seqs) ==> sb.seqs[r] != nil
-//@ pure func owns(sb *seqbag) bool = forall r1, r2 :: 0 <= r1 && r1 < r2 && r2 < len(sb.seqs) ==> base(sb.seqs[r1].sequence) != base(sb.seqs[r2].sequence)
+//@ pure func owns(sb *seqbag) bool = forall r1, r2 :: 0 <= r1 && r1 < r2 && r2 < len(sb.seqs) ==> base(sb.seqs[r1].sequence) != base(sb.seqs[r2].sequence) || cap(sb.seqs[r1].sequence) == 0 || cap(sb.seqs[r2].sequence) == 0
+//@ pure func uniq(sb *seqbag) bool = forall r1, r2 :: 0 <= r1 && r1 < r2 && r2 < len(sb.seqs) ==> sb.seqs[r1].name != sb.seqs[r2].name
+// name index: every row is found under its own name; every key is the name of a row of the list and points to it (no stale keys)
+//@ pure func idxrows(sb *seqbag) bool = forall r :: 0 <= r && r < len(sb.seqs) ==> has(sb.seqmap, sb.seqs[r].name) && sb.seqmap[sb.seqs[r].name] == sb.seqs[r]
+//@ pure func idxkeys(sb *seqbag) bool = forall k string :: has(sb.seqmap, k) ==> exists r :: 0 <= r && r < len(sb.seqs) && sb.seqs[r] == sb.seqmap[k] && sb.seqs[r].name == k
+//@ pure func alphaok(sb *seqbag) bool = sb.alphabet == AMINOACIDS || sb.alphabet == NUCLEOTIDS || sb.alphabet == UNKNOWN
+//@ pure func wf(sb *seqbag) bool = sb != nil && sb.seqmap != nil && rowsok(sb) && uniq(sb) && idxrows(sb) && idxkeys(sb) && len(sb.seqmap) == len(sb.seqs) && alphaok(sb)
+// alignment: rectangular with the cached length; -1 marks "no row yet"
+//@ pure func rect(a *align) bool = forall r :: 0 <= r && r < len(a.seqs) ==> len(a.seqs[r].sequence) == a.length
+//@ pure func wfa(a *align) bool = wf(a) && rect(a) && a.length >= -1 && (len(a.seqs) > 0 ==> a.length >= 0) && (len(a.seqs) == 0 ==> a.length == -1)
+
+//@ func NewAlign
+//@   props C01 C04 C19
+//@   requires alphabet == AMINOACIDS || alphabet == NUCLEOTIDS || alphabet == UNKNOWN || alphabet == BOTH
+//@   ensures result != nil && fresh(result) && wfa(result) && nrows(result) == 0 && result.length == -1 && fresh(result.seqmap) && fresh(result.seqs)
+//@   ensures result.alphabet == (alphabet == BOTH ? NUCLEOTIDS : alphabet) && result.ignoreidentical == IGNORE_NONE
+//@   modifies nothing
+
+//@ pure func sameseq(s *seq, t []uint8) bool = len(s.sequence) == len(t) && (forall k :: 0 <= k && k < len(t) ==> s.sequence[k] == t[k])
+
+//@ func (*seq).SameSequence
+//@   props C01 C19
+//@   requires s != nil
+//@   ensures result == sameseq(s, runeseq)
+//@   modifies nothing
+//@   loop 1
+//@     invariant len(s.sequence) == len(runeseq)
+//@     invariant forall k :: 0 <= k && k < $i ==> s.sequence[k] == runeseq[k]
+//@     decreases len(s.sequence) - $i
+
+//@ func (*align).AddSequenceChar
+//@   props C01 C04 C19
+//@   requires wfa(a)
+//@   ensures wfa(a)
+//@   ensures result != nil ==> nrows(a) == old(nrows(a)) && a.length == old(a.length)
+//@   ensures forall r :: 0 <= r && r < old(nrows(a)) ==> row(a, r) == old(row(a, r))
+//@   ensures old(a.length) != -1 && old(a.length) != len(sequence) && !(old(has(a.seqmap, name)) && a.ignoreidentical == IGNORE_NAME) && !(old(has(a.seqmap, name)) && a.ignoreidentical == IGNORE_SEQUENCE) ==> result != nil
+//@   ensures !old(has(a.seqmap, name)) && (old(a.length) == -1 || old(a.length) == len(sequence)) ==> result == nil && nrows(a) == old(nrows(a)) + 1 && rowname(a, old(nrows(a))) == name && sameslice(row(a, old(nrows(a))).sequence, sequence) && fresh(row(a, old(nrows(a)))) && a.length == len(sequence)
+//@   ensures old(has(a.seqmap, name)) && a.ignoreidentical == IGNORE_NAME ==> result == nil && nrows(a) == old(nrows(a)) && a.length == old(a.length)
+//@   ensures a.alphabet == old(a.alphabet) && a.ignoreidentical == old(a.ignoreidentical) && a.seqmap == old(a.seqmap) && (base(a.seqs) == old(base(a.seqs)) || fresh(a.seqs))
+//@   modifies a.seqs, a.length, a.seqs[*], map(a.seqmap)
+//@   loop 1
+//@     invariant idx >= 0 && ok == has(a.seqmap, tmpname) && (idx == 0 ==> tmpname == name) && (idx > 0 ==> has(a.seqmap, name))
+
+// ---- C04: extraction and coordinates ----
+
+//@ func (*align).SubAlign
+//@   props C04 C19
+//@   arith wrap64
+//@   requires wfa(a)
+//@   ensures (err == nil) == (0 <= start && 0 <= length && start + length <= a.length)
+//@   ensures err == nil ==> subalign != nil && fresh(subalign) && wfa(subalign) && nrows(subalign) == nrows(a) && (nrows(a) > 0 ==> subalign.length == length)
+//@   ensures err == nil ==> forall r :: 0 <= r && r < nrows(a) ==> rowname(subalign, r) == rowname(a, r) && fresh(row(subalign, r)) && fresh(row(subalign, r).sequence)
+//@   ensures err == nil ==> forall r, c :: 0 <= r && r < nrows(a) && 0 <= c && c < length ==> cell(subalign, r, c) == cell(a, r, start + c)
+//@   ensures err == nil ==> subalign.alphabet == a.alphabet
+//@   modifies nothing
+//@   loop 1
+//@     invariant 0 <= i && i <= nrows(a) && subalign != nil && fresh(subalign) && wfa(subalign) && nrows(subalign) == i && (i > 0 ==> subalign.length == length)
+//@     invariant subalign.ignoreidentical == IGNORE_NONE && subalign.alphabet == a.alphabet && fresh(subalign.seqmap) && fresh(subalign.seqs)
+//@     invariant forall r :: 0 <= r && r < i ==> rowname(subalign, r) == rowname(a, r) && fresh(row(subalign, r)) && fresh(row(subalign, r).sequence) && allocated(row(subalign, r).sequence)
+//@     invariant forall r, c :: 0 <= r && r < i && 0 <= c && c < length ==> cell(subalign, r, c) == cell(a, r, start + c)
+//@     decreases nrows(a) - i
 
 // ---- C06: strand and case transforms ----
 
